@@ -871,6 +871,17 @@ func brokenMonolithic(r *vh.Run, i int) {
 			return
 		}
 	}
+	// ... monolithic POSTs that arrive completely but do not hash to the digest they declare: refused (failed
+	// verification), and the session the store opened for them is gone with the refusal
+	for k := 0; k < 3; k++ {
+		b := []byte(fmt.Sprintf("monolithic content under a wrong digest %d %d", i, k))
+		ws := vh.Do(srv, vh.Req{Method: "POST", URL: "/v2/m/blobs/uploads/?digest=" + vh.DigestOf("sha256", append([]byte("x"), b...)), Body: b, UnknownLen: k == 1})
+		if ws.Status < 400 || ws.Status >= 500 {
+			wit["status"] = ws.Status
+			r.Violation("broken-monolithic:status", fmt.Sprintf("a monolithic POST whose content does not match its digest was answered %d", ws.Status), wit)
+			return
+		}
+	}
 	// ... and monolithic POSTs that arrive completely while their client is already gone (the request context is
 	// cancelled): whether the store still completes them or gives up - a session nobody knows never stays behind
 	gone, cancelGone := context.WithCancel(context.Background())
@@ -884,7 +895,7 @@ func brokenMonolithic(r *vh.Run, i int) {
 	ids, _ := srv.VerifUploads(context.Background(), "m")
 	wit["open_sessions"] = len(ids)
 	if len(ids) != 1 || ids[0] != id {
-		r.Violation("conservation:sessions:broken-monolithic", fmt.Sprintf("%s store: one session was opened by the client, %d monolithic POSTs broke off and were refused, six more arrived from a client that had left; the store now holds %d sessions (the client's own among them: %v)", kind, nbroken, len(ids), len(ids) > 0 && contains(ids, id)), wit)
+		r.Violation("conservation:sessions:broken-monolithic", fmt.Sprintf("%s store: one session was opened by the client, %d monolithic POSTs broke off and were refused, three did not match their digest, six more arrived from a client that had left; the store now holds %d sessions (the client's own among them: %v)", kind, nbroken, len(ids), len(ids) > 0 && contains(ids, id)), wit)
 		return
 	}
 	if g := vh.Do(srv, vh.Req{Method: "GET", URL: path}); g.Status != 204 || g.H.Get("Range") != "0-5" {
